@@ -72,6 +72,13 @@ func (e *Engine) invoke(st *State, fv FuncV, args []Value, in ssa.Instruction) {
 			return
 		}
 	}
+	if name == "sort.Slice" || name == "sort.SliceStable" {
+		if zp := e.prog.ImportedPackage("github.com/protolambda/zrnt/eth2/zzverif"); zp != nil {
+			e.stubsUsed["override:"+name+" -> insertion sort through the real less closure"]++
+			fn = zp.Func("SortSliceStub")
+			name = fnName(fn)
+		}
+	}
 	if ov, ok := e.overrides[name]; ok && ov != st.top().fn && (e.overrideGroup[ov] == "" || st.aux["ovr:"+e.overrideGroup[ov]] == 1) {
 		e.stubsUsed["override:"+name]++
 		fn = ov
@@ -81,7 +88,7 @@ func (e *Engine) invoke(st *State, fv FuncV, args []Value, in ssa.Instruction) {
 		res := intr(e, st, args, in)
 		e.deliver(st, res)
 		return
-	} else if strings.HasPrefix(name, zz) {
+	} else if strings.HasPrefix(name, zz) && name != zz+"SortSliceStub" {
 		panic("unknown zzverif function " + name)
 	}
 	_, isDefer := in.(*ssa.RunDefers)
